@@ -3,7 +3,8 @@
    Wrap*.v = models of the logic the momo::stdish wrappers add on top of the nested momo containers.
    Both are run (extracted) against the real momo::stdish AND libstdc++ containers on every check. *)
 From Coq Require Import ZArith List Permutation.
-From C06 Require Import Spec SpecProofs WrapOrdered WrapEq WrapErase History IterLoop.
+From C06 Require Import Spec SpecProofs WrapOrdered WrapEq WrapErase History IterLoop GenRefine.
+From C06 Require Gen_USetErase Gen_UMapErase Gen_UMMapErase Gen_SetHint Gen_MSetHint Gen_MapFind Gen_MMapFind.
 Import ListNotations.
 
 (* ===== (1) the L0 specs satisfy the std contract ===== *)
@@ -209,6 +210,75 @@ Theorem C06_erase_loop_from_traversable_erases_rest : forall l i, i < length l -
   erase_loop us_erase_at (S (length l)) l (At i true) = (firstn i l, length l - i).
 Proof. exact erase_loop_trav_erases_rest. Qed.
 Print Assumptions C06_erase_loop_from_traversable_erases_rest.
+
+(* ===== (2d) the decision logic REGENERATED from the headers on every run (cxx2coq, Gen_*.v) ===== *)
+
+(* unordered_set::erase(first,last) as translated from unordered_set.h, run on encoded iterators, IS the hand model ... *)
+Theorem C06_gen_unordered_set_erase_refines : forall l first last,
+  gen_us_erase_range l first last = us_erase_range l first last.
+Proof. exact gen_uset_erase_refines. Qed.
+Print Assumptions C06_gen_unordered_set_erase_refines.
+
+(* ... unordered_map::erase(first,last) is literally the same code ... *)
+Theorem C06_gen_unordered_map_erase_same_code : Gen_UMapErase.erase_range = Gen_USetErase.erase_range.
+Proof. exact umap_erase_same_code. Qed.
+Print Assumptions C06_gen_unordered_map_erase_same_code.
+
+(* ... so the range-erase theorem holds for the translated source: throws only for 2..n-1 elements, else removes exactly [first,last) *)
+Theorem C06_gen_unordered_erase_range_cases : forall (l : list elem) first last ps,
+  let n := length l in
+  it_wf n first -> it_wf n last ->
+  walk (us_next n) (S n) first last = Some ps ->
+  match gen_us_erase_range l first last with
+  | Throw => 2 <= length ps < n
+  | Done rest ret =>
+      exists i m, ps = seq i m /\ rest = erase_range i (i + m) l /\ (m = 0 \/ m = 1 \/ m = n) /\
+                  (is_trav first = true -> ret = deref l last) /\
+                  (is_trav first = false -> ret = None \/ m = 0)
+  end.
+Proof. exact gen_unordered_erase_range_cases. Qed.
+Print Assumptions C06_gen_unordered_erase_range_cases.
+
+(* unordered_multimap::erase(where) + erase(first,last) as translated from unordered_multimap.h == the hand model *)
+Theorem C06_gen_unordered_multimap_erase_refines : forall l first last, it_wf (length l) first ->
+  gen_mm_erase_range l first last = mm_erase_range l first last.
+Proof. exact gen_mm_erase_refines. Qed.
+Print Assumptions C06_gen_unordered_multimap_erase_refines.
+
+Theorem C06_gen_unordered_multimap_erase_range_cases : forall l first last ps,
+  it_wf (length l) first -> it_wf (length l) last ->
+  walk (mm_next l) (S (length l)) first last = Some ps ->
+  match gen_mm_erase_range l first last with
+  | Throw => 2 <= length ps
+  | Done rest ret => exists i m, ps = seq i m /\ rest = erase_range i (i + m) l
+  end.
+Proof. exact gen_unordered_multimap_erase_range_cases. Qed.
+Print Assumptions C06_gen_unordered_multimap_erase_range_cases.
+
+(* set::pvCheckHint / map_base::pvFind as translated (multiKey symbolic: one proof for set+multiset, map+multimap, whose two
+   instantiations generate identical code): hinted insertion driven by the TRANSLATED validation equals the std specification *)
+Theorem C06_gen_set_hint_refines_spec : forall multi l h x, sorted multi l -> h <= length l ->
+  gen_set_insert_hint multi l h x = ord_insert_hint multi h x l.
+Proof. exact gen_set_hint_refines_spec. Qed.
+Print Assumptions C06_gen_set_hint_refines_spec.
+
+Theorem C06_gen_map_hint_refines_spec : forall multi l h x, sorted multi l -> h <= length l ->
+  gen_map_insert_hint multi l h x = ord_insert_hint multi h x l.
+Proof. exact gen_map_hint_refines_spec. Qed.
+Print Assumptions C06_gen_map_hint_refines_spec.
+
+Theorem C06_gen_map_insert_refines_spec : forall multi x l, sorted multi l -> gen_map_insert multi x l = ord_insert multi x l.
+Proof. exact gen_map_insert_refines_spec. Qed.
+Print Assumptions C06_gen_map_insert_refines_spec.
+
+Theorem C06_gen_multiset_hint_same_code : Gen_MSetHint.pvCheckHint = Gen_SetHint.pvCheckHint.
+Proof. exact mset_hint_same_code. Qed.
+Print Assumptions C06_gen_multiset_hint_same_code.
+
+Theorem C06_gen_multimap_find_same_code :
+  Gen_MMapFind.pvFind_hint = Gen_MapFind.pvFind_hint /\ Gen_MMapFind.pvFind_null = Gen_MapFind.pvFind_null.
+Proof. exact mmap_find_same_code. Qed.
+Print Assumptions C06_gen_multimap_find_same_code.
 
 (* ===== (3) non-vacuity: the pre-fix shapes of the three repaired functions violate the same statements ===== *)
 Theorem C06_unordered_erase_range_prefix_refuted : exists l first last ps,
